@@ -73,7 +73,9 @@ func (h *hashDestructionMergeStrategy) evaluate(m *MethodEvaluator) error {
 
 	hashT := m.evaluatedObjectT
 
-	hashT.MergeHash(evaluatedArgs[0])
+	if len(evaluatedArgs) > 0 {
+		hashT.MergeHash(evaluatedArgs[0])
+	}
 
 	m.parser.SetLastEvaluatedT(hashT)
 
